@@ -18,8 +18,8 @@ TOKENS = ['a: b', '# x', '- y', '|', 'yes', 'null', '1e3', '0x1f', "it's", 'say 
           'é漢字', '~', 'true', '1', '1.0', 'a\\b', '{a}', '[a]', 'a, b', '&a', '*a', '!t', '%d', '@x', '`x`', 'x #y',
           'emoji😀', 'x\n\n\ny', "'", '"', 'key: |\n  block', '=', '<<', '0o17', '.inf', '+1', '12:30:00', '2001-01-01',
           'NO', 'On', 'off', 'y', 'n', '-', '---', '...', 'a: b: c', 'é', ' ', 'x\r\ny', '>', 'x: ', ':x',
-          'long ' * 30, 'ünï cödé', '​', 'a\x7fb']
-ALPHA = 'abcdefghijklmnopqrstuvwxyzABCXYZ0123456789 _-:#,.[]{}!&*|>\'"%@`=\\/\t\n'
+          'long ' * 30, 'ünï cödé', '​', 'a\x7fb', '? x', '?x = 1', '?', 'a ? b', '? a: b', '?- x', '? [a]']
+ALPHA = 'abcdefghijklmnopqrstuvwxyzABCXYZ0123456789 _-:#,.[]{}!&*|>\'"%@`=\\/\t\n??'
 
 
 def weird_string(rng, allow_edge_space=False):
